@@ -18,7 +18,7 @@ B = gkdi.B
 RULE = (
     "complete enumeration of clock values: every offset in [-64,+64] ticks around L2, L1 and L0 interval boundaries for 12 epochs "
     "(L0 = 316..512, i.e. 1970..2200) x sub-tick residues {0,99} ns x {sync, async}; thorough adds every L2 boundary 1970-2200 at "
-    "offsets {-1,0}. Also the same grid with a cache holding only seed keys obtained from a (reference) DC. A case is non-trivial when the real protect API returned a blob whose key "
+    "offsets {-1,0}. Each boundary is then crossed again backwards and in zig-zag order on the same cache. Also a cache holding only seed keys obtained from a (reference) DC: boundary grid, and a grid of (primed envelope position incl. shapes without an L1 key) x (local clock position slightly behind/ahead). A case is non-trivial when the real protect API returned a blob whose key "
     "identifier was parsed by the reference reader; distinct = distinct (t, api, source)."
 )
 ASSUME = [
@@ -49,6 +49,7 @@ def shards(tier: str, seed: int):
 
     if importlib.util.find_spec("env.refdc"):
         out.append(["seedkeys"])
+        out.append(["seedgrid"])
     out.append(["real"])
     if tier == "thorough":
         first = gkdi.EPOCH_FILETIME // B + 1
@@ -112,12 +113,12 @@ def case(seed: int, tt: int, sub: int, api: str, cache=None, source: str = "root
     return None, "ok"
 
 
-def _seed_cache(seed: int, l0: int):
-    """A cache that holds only what a DC returned earlier for (l0, 31, 31) - no root key."""
+def _seed_cache(seed: int, l0: int, pos=(31, 31)):
+    """A cache that holds only what a DC returned earlier for (l0,) + pos - no root key."""
     from env import refdc
 
     rk, _, mod = _setup(seed)
-    return refdc.primed_cache(rk, SID, (l0, 31, 31))
+    return refdc.primed_cache(rk, SID, (l0, pos[0], pos[1]))
 
 
 def run_shard(shard, tier, seed, acc) -> None:
@@ -141,6 +142,16 @@ def run_shard(shard, tier, seed, acc) -> None:
                     acc.outcome(oc)
                     if v:
                         acc.violate(v[0], ["t", base + off, sub, api], v[1], size=abs(off))
+        # the same cache again with the clock going BACKWARDS and then zig-zagging across the boundary (nothing may be remembered
+        # from an earlier call); history dependent, hence replayed as a whole shard
+        order = list(range(64, -65, -1)) + [x for k in range(1, 33) for x in (k, -k)]
+        for off in order:
+            for api in ("sync", "async"):
+                v, oc = case(seed, base + off, 0, api)
+                n += 1
+                acc.outcome(oc)
+                if v:
+                    acc.violate("history." + v[0], ["shard", shard, tier], {**v[1], "offset_from_boundary": off}, size=10**5)
         acc.ev(n)
         acc.nt_counted(n)
         acc.sample({"boundary": bk, "L0": ep, "t": base - 1, "expected": gkdi.interval(base - 1)})
@@ -159,6 +170,25 @@ def run_shard(shard, tier, seed, acc) -> None:
                         acc.violate(v[0], ["seedt", ep, tt, api], v[1])
         acc.ev(n)
         acc.nt_counted(n)
+    elif kind == "seedgrid":
+        # caches primed with the envelope of various positions (incl. shapes without an L1 key: L1'=0, L2'<31) and a local clock
+        # slightly behind / ahead of it
+        n = 0
+        ep = 364
+        for P in ((31, 31), (0, 20), (0, 31), (5, 31), (5, 10), (17, 0)):
+            for Q in sorted({P, (P[0], max(P[1] - 1, 0)), (P[0], min(P[1] + 1, 31)), (P[0], 0), (max(P[0] - 1, 0), 31), (min(P[0] + 1, 31), 0), (0, 0), (P[0], max(P[1] - 7, 0))}):
+                for api in ("sync", "async"):
+                    cache = _seed_cache(seed, ep, P)
+                    tt = ep * 1024 * B + Q[0] * 32 * B + Q[1] * B + 5
+                    for rep in (0, 1):
+                        v, oc = case(seed, tt, 0, api, cache=cache, source="seed")
+                        n += 1
+                        acc.outcome("seedgrid:" + oc)
+                        if v:
+                            acc.violate(v[0], ["seedgrid", ep, list(P), list(Q), api, rep], v[1])
+        acc.ev(n)
+        acc.nt_counted(n)
+        acc.sample({"cache primed with the envelope for": [ep, 0, 20], "clock at": [ep, 0, 19], "expected": "names (364,0,19) or tries the network"})
     elif kind == "real":
         now = time.time_ns() // 100 + gkdi.EPOCH_FILETIME
         rk, cache, mod = _setup(seed)
@@ -192,6 +222,13 @@ def replay(case_, seed, acc) -> None:
     seams.block_network()
     if case_[0] == "t":
         v, oc = case(seed, int(case_[1]), int(case_[2]), case_[3])
+    elif case_[0] == "seedgrid":
+        _, ep, P, Q, api, rep = case_
+        cache = _seed_cache(seed, ep, tuple(P))
+        tt = ep * 1024 * B + Q[0] * 32 * B + Q[1] * B + 5
+        v, oc = None, ""
+        for _ in range(rep + 1):
+            v, oc = case(seed, tt, 0, api, cache=cache, source="seed")
     elif case_[0] == "seedt":
         v, oc = case(seed, int(case_[2]), 0, case_[3], cache=_seed_cache(seed, int(case_[1])), source="seed")
     else:
